@@ -1,5 +1,6 @@
 import Model.Numscript.Spec
 import Model.Numscript.VM
+import Lemmas.NumResolve
 /-! C12 — no script, variable map or ledger state can crash the engine.
 Stage 1: at the level of `Spec` (the source-level interpreter the compiler+VM are differentially tied to).
 `Spec.run` is a total Lean function — every recursion in it (`evalSource`/`evalSources`,
@@ -42,5 +43,28 @@ theorem vm_terminates (rs : List BVal) (is : List Instr) (m : VM.Machine) : VM.t
     | ok m' => have := ih m'; simp only []; omega
     | error e => simp
     | panic k => simp
+
+/-- **resolution never panics**: for a COMPILED program, whatever the caller's variable map and the store hold,
+`SetVarsFromJSON` (an `Except`: no crash alternative), `ResolveResources` and `ResolveBalances` end with a result
+or a defined error — none of their nil dereferences and type assertions (`(*acc).(AccountAddress)`,
+`(*ass).(Asset)`, `Resources[i].(Monetary)`, `(*mon).(HasAsset)`) can fail.  Proof: the compiler only ever stores,
+inside a resource, addresses of EARLIER resources of the right type (`compile_good`), the names of the plain
+variables are pairwise distinct (`compile_varNames_nodup`), and every resolved value has the type of its
+resource (`TypedVals`). -/
+theorem resolve_never_panics (P : Script) (prog : Program) (hc : compile P = .ok prog) (req : Request) (store : Store)
+    (vars : List (String × BVal)) (hv : VM.setVarsFromJSON prog req.vars = .ok vars) :
+    (VM.resolveResources prog vars store).isPanic = false ∧
+    ∀ R, VM.resolveResources prog vars store = .ok R → (VM.resolveBalances prog R store).isPanic = false := by
+  obtain ⟨hwf, hwn⟩ := compile_good hc
+  have hvt := setVarsFromJSON_typed (compile_varNames_nodup hc) hv
+  have h1 := resolveResources_ok prog vars store hwf hvt
+  constructor
+  · cases hr : VM.resolveResources prog vars store with
+    | ok R => rfl
+    | error e => rfl
+    | panic k => rw [hr] at h1; exact h1.elim
+  · intro R hr
+    rw [hr] at h1
+    exact (resolveBalances_ok prog R store h1.1 h1.2 hwn).1
 
 end C12
